@@ -147,6 +147,16 @@ func c12ParseSpecs(repo string) []c12Spec {
 	if len(specs) == 0 {
 		panic("C12 infrastructure error: no SyncedEnforcer method found in " + repo)
 	}
+	// the lock mode of a wrapper is what the generated lock table says (interprocedural: helpers
+	// such as withRLock(func()) or `defer e.acquireRead()()` are seen through); the syntactic scan
+	// above is only the fallback for wrappers the table marks irregular
+	if tl := c12TableLocks(); tl != nil {
+		for i := range specs {
+			if m, ok := tl[specs[i].Name]; ok {
+				specs[i].Lock = m
+			}
+		}
+	}
 	return specs
 }
 
